@@ -175,3 +175,41 @@ func vpTokScaledConst(s string) vpZ {
 	}
 	return vp_ZU(v)
 }
+
+// VPH_humanSequence (C12): the rendering of a value does not depend on what the
+// same Humaner rendered before (each report item holds its own copy, but any
+// copy may be used repeatedly).
+func VPH_humanSequence() {
+	var h Humaner
+	if vp_Choice("system", 2) == 0 {
+		h = Metric
+	} else {
+		h = Binary
+	}
+	first := []uint64{5000000, 999, 1 << 60, 1023, 1 << 40}[vp_Choice("first", 5)]
+	h.FormatNumber(first, "B")
+	n := vp_U64("n")
+	numeral, unitString := h.FormatNumber(n, "B")
+	j := vpClass(&h, unitString)
+	vp_Assert(j >= 0, "unit = prefix + unit")
+	if j < 0 {
+		return
+	}
+	M := h.prefixes[j].Multiplier
+	zn, zM := vp_ZU(n), vp_ZU(M)
+	if j > 0 {
+		vp_Assert(vp_ZLe(zM, zn), "prefix multiplier <= value (after an earlier rendering)")
+	}
+	if j+1 < len(h.prefixes) {
+		vp_Assert(vp_ZLt(zn, vp_ZU(h.prefixes[j+1].Multiplier)), "no larger prefix fits (after an earlier rendering)")
+	}
+	N := vp_TokDecimals(numeral)
+	d := vp_TokScaled(numeral)
+	if j == 0 {
+		vp_Assert(N == 0 && vp_ZEq(d, zn), "values below the first prefix are printed exactly (after an earlier rendering)")
+		vp_Reach("exact")
+		return
+	}
+	vp_Assert(vp_ZLe(vp_ZU(100), d), "at least three significant digits (after an earlier rendering)")
+	vp_Reach("prefixed")
+}
